@@ -28,10 +28,11 @@ const (
 	opST        // SetTimeout(v ms)
 	opGT        // Timeout()
 	opCL        // Clone(), then the private clone is read
+	opRR        // FProtocol.ReadResponseHeader(ctx) of a block carrying k=v: a writer of response headers
 	opKinds
 )
 
-var opNames = [opKinds]string{"AddReq", "GetReq", "AddResp", "GetResp", "ReqHeaders", "RespHeaders", "SetTimeout", "Timeout", "Clone"}
+var opNames = [opKinds]string{"AddReq", "GetReq", "AddResp", "GetResp", "ReqHeaders", "RespHeaders", "SetTimeout", "Timeout", "Clone", "ReadResponseHeader"}
 
 type linOp struct {
 	kind  int
@@ -88,12 +89,13 @@ type linMode struct {
 }
 
 var linModes = []linMode{
-	{"mixed", [opKinds]int{6, 6, 4, 4, 2, 2, 2, 2, 1}},
-	{"write-heavy", [opKinds]int{10, 3, 6, 2, 1, 1, 2, 1, 1}},
-	{"read-heavy", [opKinds]int{3, 10, 2, 6, 1, 1, 1, 2, 1}},
-	{"snapshot-heavy", [opKinds]int{6, 1, 4, 1, 5, 4, 1, 0, 2}},
-	{"clone-heavy", [opKinds]int{6, 1, 4, 1, 1, 1, 1, 0, 6}},
-	{"timeout", [opKinds]int{2, 1, 1, 1, 1, 0, 8, 8, 2}},
+	{"mixed", [opKinds]int{6, 6, 4, 4, 2, 2, 2, 2, 1, 2}},
+	{"write-heavy", [opKinds]int{10, 3, 6, 2, 1, 1, 2, 1, 1, 3}},
+	{"read-heavy", [opKinds]int{3, 10, 2, 6, 1, 1, 1, 2, 1, 1}},
+	{"snapshot-heavy", [opKinds]int{6, 1, 4, 1, 5, 4, 1, 0, 2, 1}},
+	{"clone-heavy", [opKinds]int{6, 1, 4, 1, 1, 1, 1, 0, 6, 1}},
+	{"timeout", [opKinds]int{2, 1, 1, 1, 1, 0, 8, 8, 2, 0}},
+	{"response-readers", [opKinds]int{1, 1, 6, 6, 0, 3, 0, 0, 1, 6}},
 }
 
 type linCase struct {
@@ -127,7 +129,7 @@ func genLinCase(rng *rand.Rand, h int) *linCase {
 			}
 			op := linOp{kind: kind, key: "k" + strconv.Itoa(rng.Intn(K)), pause: []int{0, 0, 10, 50, 200, 1000}[rng.Intn(6)]}
 			switch kind {
-			case opWQ, opWP:
+			case opWQ, opWP, opRR:
 				op.val = fmt.Sprintf("v%d.%d.%d", h, g, i) // unique per write
 			case opST:
 				op.key = ""
@@ -160,6 +162,12 @@ func execLin(c *linCase, ids *idCollector) [][]linRec {
 			script := c.scripts[g]
 			out := make([]linRec, len(script))
 			clones := make([]frugal.FContext, len(script))
+			blocks := make([][]byte, len(script))
+			for i, op := range script {
+				if op.kind == opRR { // the incoming op id must be ignored by ReadResponseHeader
+					blocks[i] = frugal.VerifMarshalHeaders(map[string]string{op.key: op.val, "_opid": "77"})
+				}
+			}
 			bar.wait()
 			spin := 0
 			for i, op := range script {
@@ -204,6 +212,12 @@ func execLin(c *linCase, ids *idCollector) [][]linRec {
 					d := ctx.Timeout()
 					r.ret = time.Since(base).Nanoseconds()
 					r.out, r.ok = strconv.FormatInt(int64(d/time.Millisecond), 10), true
+				case opRR:
+					fp := responseReader(blocks[i])
+					r.call = time.Since(base).Nanoseconds()
+					err := fp.ReadResponseHeader(ctx)
+					r.ret = time.Since(base).Nanoseconds()
+					r.ok = err == nil
 				case opCL:
 					var cl frugal.FContext
 					r.call = time.Since(base).Nanoseconds()
@@ -297,7 +311,7 @@ func judgeLin(c *linCase, recs [][]linRec) *linVerdict {
 	var sb strings.Builder
 	for _, r := range flat {
 		v.clientOps++
-		fmt.Fprintf(&sb, "%d%c%s ", r.g, "WRwrSsTtC"[r.op.kind], r.op.key)
+		fmt.Fprintf(&sb, "%d%c%s ", r.g, "WRwrSsTtCP"[r.op.kind], r.op.key)
 		switch r.op.kind {
 		case opWQ:
 			add("Q:"+r.op.key, r.g, regIn{write: true, val: r.op.val}, regOut{}, r.call, r.ret, "")
@@ -307,6 +321,11 @@ func judgeLin(c *linCase, recs [][]linRec) *linVerdict {
 			add("P:"+r.op.key, r.g, regIn{write: true, val: r.op.val}, regOut{}, r.call, r.ret, "")
 		case opRP:
 			add("P:"+r.op.key, r.g, regIn{}, regOut{val: r.out, ok: r.ok}, r.call, r.ret, "ResponseHeader")
+		case opRR:
+			if !r.ok && v.foreign == "" {
+				v.foreign = "ReadResponseHeader rejected a valid header block"
+			}
+			add("P:"+r.op.key, r.g, regIn{write: true, val: r.op.val}, regOut{}, r.call, r.ret, "ReadResponseHeader")
 		case opSQ:
 			snapshot("Q", r, r.snapQ, "RequestHeaders")
 		case opSP:
